@@ -14,7 +14,9 @@
 (*                           boundaries: split token i at character k by a  *)
 (*                           blank, join tokens i and i+1, insert character *)
 (*                           c (quote, slash, line feed, 2-byte character)  *)
-(*                           at position k of token i, delete a character   *)
+(*                           at position k of token i, delete a character;  *)
+(*                           "space": white space typed into the gap before *)
+(*                           token i (changes no token at all)              *)
 (*   Batch(e1, e2)           two edits delivered in one notification, the   *)
 (*                           second relative to the result of the first     *)
 (*   Damage(kind, i, tok)    = EditTokens restricted to single tokens (C05) *)
@@ -60,8 +62,9 @@ RandomTokenEdit ==
 \* character-level edits are described by kind; the document stays a token-spelling sequence only as
 \* long as the harness can re-tokenise it, so after a character edit the history is closed
 RandomCharEdit ==
-  /\ base # <<>> /\ Len(hist) = MaxEdits - 1 /\ doc # <<>>          \* (the last edit of a history)
-  /\ \E kind \in {RandomElement({"split", "join", "insert", "delete"})}, i \in {RandomElement(1..Len(doc))},
+  /\ base # <<>> /\ Len(hist) = MaxEdits - 1 /\ doc # <<>>          \* (the last edit of a history; it may be the second
+  \*                                                                    half of a batch if its predecessor is marked "batch")
+  /\ \E kind \in {RandomElement({"split", "join", "insert", "delete", "space", "space"})}, i \in {RandomElement(1..Len(doc))},
         k \in {RandomElement(0..3)}, c \in {RandomElement(Chars)} :
        hist' = Append(hist, Edit(kind, i, i, <<>>, k, c))
   /\ UNCHANGED <<vars, doc, base>>
